@@ -102,7 +102,7 @@ def run(chk, replay=None):
             m = min(n, 3)
             for ranks in itertools.product([None, 0, 1, 2], repeat=m):
                 for where in (0, 1):
-                    t0 = rng.choice([0, -10**9, 10**12, rng.randint(-10**10, 10**10)])
+                    t0 = rng.choice([0, -10**9, 10**12, rng.randint(-10**10, 10**10), I64_MIN, I64_MIN, I64_MAX - 4 * 10**6])
                     ops = [[1, i, n + i] for i in range(n)]
                     for i, rk in enumerate(ranks):
                         if rk is not None:
@@ -121,7 +121,7 @@ def run(chk, replay=None):
             enc, n = dev_spec(rng, kind, **kw)
             ops = [[1, i, n + i] for i in range(n)] if rng.random() < 0.5 else []
             nt = 2 * n
-            t0 = rng.choice([0, -10**9, 10**12])
+            t0 = rng.choice([0, -10**9, 10**12, I64_MIN - 1, I64_MAX - 6 * 10**6])
             k0, v0 = rng.randrange(3), rng.choice([f2b(1.0), f2b(-3.5), f2b(0.0), rand_f32_bits(rng)])
             src = rng.randrange(nt if ops else n)
             for rnd in range(rng.randint(2, 5)):
@@ -142,7 +142,7 @@ def run(chk, replay=None):
         ops = [[1, 0, bases[0]]]
         for a in range(k - 1):
             ops.append([1, bases[a] + 1, bases[a + 1]])
-        cmd = (rng.randint(-10**9, 10**12), (rng.randrange(3), rand_f32_bits(rng)))
+        cmd = (rng.choice([rng.randint(-10**9, 10**12), rng.randint(-10**9, 10**12), I64_MIN, I64_MIN + 1, I64_MAX]), (rng.randrange(3), rand_f32_bits(rng)))
         ops.append([4, 0, cmd[0], cmd[1][0], cmd[1][1]])
         ops += [[5, a] for a in range(k)]
         ops.append([6, bases[-1] + 1])
@@ -163,5 +163,5 @@ def run(chk, replay=None):
     if not proof["ok"] and not chk.violations:
         chk.violation("proof obligations of C13 no longer check: " + "; ".join(proof["problems"])[:1500], {"theorem_file": "coq/theories/Properties/C13.v", "problems": proof["problems"]}, False)
     return chk.finish(proof,
-        rule="one device with an external terminal connected to each of its terminals, commands issued on either side with distinct/tied timestamps, rounds of {new command, read all, update, read all}; chains of 1..5 devices of mixed type (inverter, gear train, axle) updated in order; distinct = distinct (family, model output)",
+        rule="one device with an external terminal connected to each of its terminals, commands issued on either side with distinct/tied timestamps (including i64::MIN and values next to i64::MAX), rounds of {new command, read all, update, read all}; chains of 1..5 devices of mixed type (inverter, gear train, axle) updated in order; distinct = distinct (family, model output)",
         checker_cmd="make -C coq ; coqc Properties/C13.v", trusted=std_trusted())
